@@ -458,6 +458,9 @@ pub fn run(ctx: &Ctx) -> ! {
             to_out(&sc, seed, o, "directed", true)
         });
         report.merge(rep);
+        if std::env::var("VERIF_PHASE_TIMING").is_ok() {
+            eprintln!("phase done at {:.1}s", ctx.elapsed_s());
+        }
     }
     // systematic enumeration, grouped 8 episodes per Net
     {
@@ -487,6 +490,9 @@ pub fn run(ctx: &Ctx) -> ! {
             to_out(&sc, seed, o, "enum", true)
         });
         report.merge(rep);
+        if std::env::var("VERIF_PHASE_TIMING").is_ok() {
+            eprintln!("phase done at {:.1}s", ctx.elapsed_s());
+        }
     }
     // random
     {
@@ -504,6 +510,9 @@ pub fn run(ctx: &Ctx) -> ! {
             to_out(&sc, seed, o, "rand", true)
         });
         report.merge(rep);
+        if std::env::var("VERIF_PHASE_TIMING").is_ok() {
+            eprintln!("phase done at {:.1}s", ctx.elapsed_s());
+        }
     }
     // long: hundreds of sequential connections in one Net, three pinned
     // client ports, so ephemeral ports and 4-tuples recur many times
@@ -531,6 +540,9 @@ pub fn run(ctx: &Ctx) -> ! {
             out
         });
         report.merge(rep);
+        if std::env::var("VERIF_PHASE_TIMING").is_ok() {
+            eprintln!("phase done at {:.1}s", ctx.elapsed_s());
+        }
     }
     // crowd (backlog)
     {
@@ -543,6 +555,9 @@ pub fn run(ctx: &Ctx) -> ! {
             crowd::run_one(&cr, true)
         });
         report.merge(rep);
+        if std::env::var("VERIF_PHASE_TIMING").is_ok() {
+            eprintln!("phase done at {:.1}s", ctx.elapsed_s());
+        }
     }
     // budget exhaustion only trims coverage
     let pairs = report.seen.get("state_pairs").map(|s| s.len()).unwrap_or(0);
